@@ -154,7 +154,7 @@ def run(ctx):
                 salt, env = golden.split_id(gid, how)
                 check(ctx, im, prog, text, c[1], env, "golden")
     # random programs with conditionals
-    n = ctx.n(1200, 300000)
+    n = ctx.n(2500, 300000)
     pg = ProgGen(rnd, Profile(max_depth=2, max_arms=3, pred_depth=2, splitters=(1, 4), p_salt=0.8, weights="int"))
     for i in range(n):
         gp = pg.program()
